@@ -568,8 +568,7 @@ class PageElement(object):
         old_parent = self.parent
         my_index = self.parent.index(self)
         self.extract(_self_index=my_index)
-        for idx, replace_with in enumerate(args, start=my_index):
-            old_parent.insert(idx, replace_with)
+        old_parent.insert(my_index, *args)
         return self
 
     replaceWith = _deprecated_function_alias("replaceWith", "replace_with", "4.0.0")
